@@ -1,12 +1,15 @@
 (* Extraction of the executable models and specifications for the correspondence check.
    Only ExtrOcamlBasic is used: bool, option, list, prod, unit, sumbool map to the OCaml types;
-   Z, N, positive, nat stay the extracted inductive types. No Extract Constant. *)
+   Z, N, positive, nat stay the extracted inductive types. One Extract Constant of ours: the standard library's
+   [rev] (defined as [rev l ++ [x]], quadratic) is realised by OCaml's [List.rev] (same function on OCaml lists, linear);
+   without it a 64 kB argument costs minutes per case in the correspondence check. *)
 (* DEPS: Base.v ScriptNum.v Gen/Consts.v Gen/Sites.v Gen/OpNames.v NumExpr.v Gen/NumOps.v Script.v Interp.v Session.v Value.v Der.v Hashes.v Tx.v TxCli.v Codecs.v Gen/TfTable.v Transforms.v Gen/CliTables.v Cli.v TapTool.v Sighash.v Configure.v Pretend.v *)
 From Coq Require Import Extraction ExtrOcamlBasic.
 From BV Require Import Base ScriptNum Script Interp Session Value Der Hashes Tx TxCli Transforms Cli TapTool Sighash Configure Pretend.
 From BV.Gen Require Import Consts Sites OpNames CliTables.
 Extraction Language OCaml.
 Set Extraction Optimize.
+Extract Constant rev => "List.rev".
 Extraction "../ocaml/model.ml" sn_ctor sn_serialize sn_getint value_int_hex_str value_int_data_value value_data_int_value
   hexstr
   setup_env inst_step dbg_rewind dbg_continue continue_fuel inst_eval at_start init_execdata cs_at
